@@ -44,15 +44,8 @@ def run(ck, ctx):
     _check_table_id(ck, ctx)
     # (that a failed look-up raises and never falls back to another table is decided semantically: O-final explores targets that no
     # table matches - unqualified and schema-qualified - and requires the abstractly evaluated formatter to raise)
-    for fname, want in (("add_alter_to_table", ("statement['schema']", "statement['alter_table_name']")),
-                        ("add_index_to_table", (None, "statement['table_name']"))):
-        f = m.func(f"simple_ddl_parser.output.core:Output.{fname}")
-        calls = [x for x in ast.walk(f.node) if S.is_self_call("get_table_from_tables_data")(x)]
-        ck.ob("T-PASS.target", f"Output.{fname} looks the target up once", len(calls) == 1, "", f.loc())
-        for c in calls:
-            args = [ast.unparse(a) for a in c.args]
-            ok = len(args) == 2 and args[1] == want[1] and (want[0] is None or args[0] == want[0]) and "schema" in args[0]
-            ck.ob("T-PASS.target", f"Output.{fname}: the statement's own schema and table name are looked up", ok, str(args), f.loc(c))
+    # (that ALTER / CREATE INDEX look up the statement's own schema and table is decided on the final output: O-final explores every way
+    # of writing the target, same-named tables in two schemas and targets no table matches)
     ck.assumptions += ["words are separated as pre_process_data intends",
                        "the alter section is checked to record the declared names / values (its exact layout is not pinned by the property)",
                        "quick tier: every way of writing the target x three representative actions, every action x the plainly written "
